@@ -357,6 +357,185 @@ def check_revision_cases(res, rcases, report=3):
     return stats, nviol
 
 
+# ------------------------------------------------------------------ modules found through the search path
+def gen_path_cases(tier, seed):
+    """the deviations stand in a (sub)module that is not read explicitly but found by Process through an include or
+    import and the search path; expectation by construction: the result of reading everything explicitly"""
+    rnd = random.Random(seed * 7001 + 11)
+    out = []
+    for i in range(40 if tier == "quick" else 500):
+        base, T = base_schema(rnd, rnd.choice([0, 1, 2, 2]))
+        real = [x for x in T if x["kind"] != "missing"]
+        devs = []
+        for _ in range(rnd.choice([1, 2, 3])):
+            t = rnd.choice(real)
+            if rnd.random() < 0.7:
+                prop = rnd.choice(["cfg", "mand", "default", "units"])
+                dvs = [deviate("replace", **{prop: {"cfg": rnd.random() < 0.5, "mand": rnd.random() < 0.5,
+                                                    "default": "pd", "units": "pu"}[prop]})]
+            else:
+                dvs = [random_deviate(t, rnd)]
+            devs.append((tpath(t), dvs))
+        if rnd.random() < 0.5:
+            devs.append((tpath(next(x for x in real if x["steps"] == ["top", "ch", "a", "a"])), [deviate("replace", default="ic")]))
+        variant = rnd.choice(["sub", "sub", "imported", "base-by-path"])
+        imports = [("b", "b"), ("a", "a")]
+        if variant == "sub":
+            d1 = mod("d1", "d1", imports=imports)
+            d1["includes"] = ["d1s"]
+            sub = dict(mod("d1s", "d1", imports=imports, deviations=devs), ns="", belongs="d1")
+            mods, ops = base + [d1, sub], ["L", "L", "L", "D"]
+            if rnd.random() < 0.3:
+                ops = ["D", "D", "L", "D"]
+        elif variant == "imported":
+            d1 = mod("d1", "d1", imports=imports, deviations=devs)
+            x = mod("x", "x", imports=[("d1", "d1")], body=[("leaf", "xl", "string", None, None, None, None)])
+            mods, ops = base + [d1, x], rnd.choice([["D", "D", "D", "L"], ["L", "L", "D", "L"]])
+        else:
+            d1 = mod("d1", "d1", imports=imports, deviations=devs)
+            mods, ops = base + [d1], rnd.choice([["D", "D", "L"], ["D", "L", "L"]])
+        out.append(dict(mods=mods, ops=ops, opts="-", info=dict(g="search-path", variant=variant)))
+    return out
+
+
+def check_path_cases(res, pcases, report=3):
+    stats = dict(path_runs=0, path_ok=0)
+    a = lib.run_go([go_line(c["mods"], c["opts"], ops=c["ops"]) for c in pcases])
+    b = lib.run_go([go_line(c["mods"], c["opts"]) for c in pcases])
+    nviol = 0
+    for c, g, e in zip(pcases, a, b):
+        stats["path_runs"] += 1
+        st, _, dump = sg.canon_go(g)
+        est, _, edump = sg.canon_go(e)
+        what = None
+        if st not in ("ok", "err") or est not in ("ok", "err"):
+            what = "search path: implementation neither processed nor reported: %s / %s" % (g[:200], e[:200])
+        elif st != est:
+            what = "modules found through the search path (%s, %s): %s; all read explicitly: %s" % (c["info"]["variant"], c["ops"], st, est)
+        elif st == "ok":
+            stats["path_ok"] += 1
+            ta = {m["name"]: sg.canon_go_node(m["tree"]) for m in dump["runs"][-1]["modules"] if m["name"] in ("a", "b")}
+            tb = {m["name"]: sg.canon_go_node(m["tree"]) for m in edump["runs"][-1]["modules"] if m["name"] in ("a", "b")}
+            if ta != tb:
+                mn = [k for k in tb if ta.get(k) != tb.get(k)][0]
+                what = "modules found through the search path (%s, %s): tree of %s differs from the one with all modules read explicitly: %s vs %s" % (
+                    c["info"]["variant"], c["ops"], mn, ta.get(mn, "")[:300], tb[mn][:300])
+        if what:
+            nviol += 1
+            if nviol <= report:
+                res.violation(what, dict(kind="c08-path", what=what, case=dict(mods=c["mods"], ops=c["ops"], opts=c["opts"], info=c["info"])))
+    return stats, nviol
+
+
+# ------------------------------------------------------------------ revisions of the DEVIATED module
+def pin_import(text, name, date):
+    return text.replace("import %s { prefix %s; }" % (name, name), "import %s { prefix %s; revision-date %s; }" % (name, name, date))
+
+
+def gen_base_revision_cases(tier, seed):
+    """two revisions of the deviated module b are loaded; the deviating module imports b with a revision-date (either
+    one) or without (the most recent).  Expectation by construction: the revision the import denotes looks as in a run
+    with that revision alone, the other revision as in the run without the deviating module."""
+    rnd = random.Random(seed * 9176 + 17)
+    old_d, new_d = "2019-01-01", "2020-01-01"
+    out = []
+    for i in range(30 if tier == "quick" else 400):
+        base, T = base_schema(rnd, rnd.choice([0, 1, 2, 2]))
+        b = dict(base[0], revision=old_d, file="b@%s.yang" % old_d)
+        # the newer revision: the container `in` is gone, the leaf x has another default, a new leaf
+        top = b["body"][1]
+        tb = list(top[3])
+        x = tb[0]
+        tb[0] = x[:5] + ("newer",) + x[6:]
+        del tb[3]
+        tb.append(("leaf", "nw", "string", None, None, None, None))
+        b2 = dict(b, body=[b["body"][0], top[:3] + (tb,)] + b["body"][2:], revision=new_d, file="b@%s.yang" % new_d)
+        real = [t for t in T if t["kind"] != "missing" and all(p_ == "b" for p_ in t["pfx"]) and
+                not (t["steps"][0] == "top" and len(t["steps"]) > 1 and t["steps"][1] in ("ax", "al", "ac"))]
+        devs = []
+        for _ in range(rnd.choice([1, 2, 3])):
+            t = rnd.choice(real)
+            if rnd.random() < 0.75:
+                prop = rnd.choice(["cfg", "mand", "default", "units"])
+                dvs = [deviate("replace", **{prop: {"cfg": rnd.random() < 0.5, "mand": rnd.random() < 0.5,
+                                                    "default": "rv", "units": "ru"}[prop]})]
+            else:
+                dvs = [random_deviate(t, rnd)]
+            devs.append((tpath(t), dvs))
+        if rnd.random() < 0.5:
+            devs.append(("/b:top/b:in/b:y", [deviate("replace", default="only-old")]))     # exists in the old revision only
+        if rnd.random() < 0.3:
+            devs.append(("/b:top/b:nw", [deviate("replace", default="only-new")]))          # ... in the new one only
+        dv = mod("dv", "dv", imports=[("b", "b")], deviations=devs)
+        for pin in (old_d, new_d, None):
+            out.append(dict(b_old=b, b_new=b2, dv=dv, pin=pin, opts="-", info=dict(g="base-revisions")))
+    return out
+
+
+def check_base_revision_cases(res, cases, report=3):
+    stats = dict(baserev_runs=0, baserev_ok=0)
+
+    def line(mods, pin, order=None):
+        ms = []
+        for m in mods:
+            if m["name"] == "dv":
+                text = render_module_layout(m, None)
+                m = dict(m, text=pin_import(text, "b", pin) if pin else text)
+            ms.append(m)
+        return go_line(ms, "-")
+    W, S, O = [], [], []
+    for c in cases:
+        denoted = c["b_old"] if c["pin"] == c["b_old"]["revision"] else c["b_new"]
+        c["_den"] = denoted["revision"]
+        mods = [c["b_old"], c["b_new"], c["dv"]]
+        if hash(json.dumps(c["dv"]["deviations"], sort_keys=True)) % 2:
+            mods = [c["dv"], c["b_new"], c["b_old"]]
+        W.append(line(mods, c["pin"]))
+        S.append(line([denoted, c["dv"]], c["pin"]))
+        O.append(line([c["b_old"], c["b_new"]], None))
+    w, sgl, o = lib.run_go(W), lib.run_go(S), lib.run_go(sorted(set(O)))
+    omap = dict(zip(sorted(set(O)), o))
+    nviol = 0
+
+    def trees(dump):
+        # per revision: every node's dumped fields by path; instmod is left out: with two revisions loaded their common
+        # namespace names two modules, with one revision one
+        out = {}
+        for m in dump["runs"][-1]["modules"]:
+            if m["name"] == "b":
+                out[m.get("rev", "")] = json.dumps(sorted(("/".join(pth), sorted((k, json.dumps(v, sort_keys=True)) for k, v in own(n).items() if k != "instmod"))
+                                                          for pth, n in walk(m["tree"]).items()))
+        return out
+    for c, gw, gs, ol in zip(cases, w, sgl, O):
+        stats["baserev_runs"] += 1
+        st, _, dw = sg.canon_go(gw)
+        sst, _, ds = sg.canon_go(gs)
+        ost, _, do = sg.canon_go(omap[ol])
+        what = None
+        if st not in ("ok", "err") or sst not in ("ok", "err") or ost != "ok":
+            what = "revisions of the deviated module: unexpected harness result %s / %s / %s" % (gw[:150], gs[:150], omap[ol][:150])
+        elif st != sst:
+            what = ("two revisions of the deviated module, import %s: %s; with the denoted revision %s alone: %s" %
+                    ("pinned to " + c["pin"] if c["pin"] else "without revision-date", st, c["_den"], sst))
+        elif st == "ok":
+            stats["baserev_ok"] += 1
+            tw, ts, to = trees(dw), trees(ds), trees(do)
+            other = [r for r in tw if r != c["_den"]]
+            if tw.get(c["_den"]) != ts.get(c["_den"]):
+                what = ("the revision %s that the import denotes (%s) does not look as with that revision alone: %s vs %s" %
+                        (c["_den"], "pinned" if c["pin"] else "most recent", (tw.get(c["_den"]) or "")[:300], (ts.get(c["_den"]) or "")[:300]))
+            elif any(tw[r] != to.get(r) for r in other):
+                r = [r for r in other if tw[r] != to.get(r)][0]
+                what = ("the revision %s that no deviation names differs from the run without the deviating module: %s vs %s" %
+                        (r, tw[r][:300], (to.get(r) or "")[:300]))
+        if what:
+            nviol += 1
+            if nviol <= report:
+                res.violation("base revisions: " + what, dict(kind="c08-baserev", what=what,
+                              case=dict(b_old=c["b_old"], b_new=c["b_new"], dv=c["dv"], pin=c["pin"], opts=c["opts"], info=c["info"])))
+    return stats, nviol
+
+
 # ------------------------------------------------------------------ the option is read by every Process
 def check_flip_cases(res, cases, seed, n_max, report=3):
     """one Modules value, Process under one setting of IgnoreDeviateNotSupported, option flipped, Process again: each run
@@ -630,10 +809,13 @@ def add_ordered_by(text, ob):
     return text
 
 
-def go_line(mods, opts, lay=None):
+def go_line(mods, opts, lay=None, ops=None):
     """process line for the implementation.  A module dict may carry its YANG text ("text"), a revision date
-    ("revision") and a file name ("file"); the texts of modules with deviations get the layout [lay]"""
-    toks = ["process", opts, ",".join(["L%d" % i for i in range(len(mods))] + ["P"]), str(len(mods))]
+    ("revision") and a file name ("file"); the texts of modules with deviations get the layout [lay].
+    ops: per module "L" (parsed explicitly, default) or "D" (only put into the search path)"""
+    ops = ops or ["L"] * len(mods)
+    toks = ["process", opts, ",".join(["%s%d" % (o, i) for i, o in enumerate(ops) if o == "D"] +
+                                      ["%s%d" % (o, i) for i, o in enumerate(ops) if o == "L"] + ["P"]), str(len(mods))]
     for i, m in enumerate(mods):
         text = m["text"] if "text" in m else render_module_layout(m, random.Random(lay * 1009 + i) if lay is not None else None)
         if m.get("revision"):
@@ -1052,6 +1234,14 @@ def run(res, tier, seed, proof):
     fstats, fviol = check_flip_cases(res, cases, seed, 120 if tier == "quick" else 1500)
     stats.update(fstats)
     nviol += fviol
+    bcases = gen_base_revision_cases(tier, seed)
+    bstats, bviol = check_base_revision_cases(res, bcases)
+    stats.update(bstats)
+    nviol += bviol
+    pcases = gen_path_cases(tier, seed)
+    pstats, pviol = check_path_cases(res, pcases)
+    stats.update(pstats)
+    nviol += pviol
     rcases = gen_revision_cases(tier, seed)
     rstats, rviol = check_revision_cases(res, rcases)
     stats.update(rstats)
@@ -1064,7 +1254,7 @@ def run(res, tier, seed, proof):
     ex = [c for c in cases if c.get("_st") == "ok" and c["info"].get("g") == "multi"][:1] + \
          [c for c in cases if c.get("_st") == "err"][:1] + [c for c in cases if c["info"].get("g") == "random-schema"][:1]
     cov = dict(
-        evaluations=len(cases) * 2 + stats["spec_evals"] + 2 * len(rcases),
+        evaluations=len(cases) * 2 + stats["spec_evals"] + 2 * len(rcases) + 2 * len(pcases) + 3 * len(bcases) + 2 * stats.get("flip_runs", 0),
         distinct_nontrivial=len({json.dumps(strip(c), sort_keys=True) for c in cases}),
         rule="generated base (every target kind: leaf, leaf-list, list, container, choice, explicit and implicit case, anydata, "
              "rpc, explicit and implicit input/output, notification leaf, nodes of a grouping used twice, augmented nodes) in "
@@ -1081,7 +1271,10 @@ def run(res, tier, seed, proof):
              "one module set processed repeatedly with IgnoreDeviateNotSupported flipped in between (harness/go c08flip), each run "
              "compared with a fresh set under the options in force; lists and leaf-lists with ordered-by user/system (every dumped "
              "field of a target that no deviate can name, ordered-by included, is compared with the run without the "
-             "deviating modules).  Each case: model-vs-implementation, frame against the run without the deviating modules, "
+             "deviating modules); deviation paths that leave out or misplace the input/output step below an rpc or action; "
+             "deviations in (sub)modules found only through the search path (ops D), compared with reading everything explicitly; "
+             "two revisions of the deviated module with pinned and unpinned imports, each revision compared with the run that "
+             "determines it by construction.  Each case: model-vs-implementation, frame against the run without the deviating modules, "
              "extracted reference applied to the undeviated dump",
         exhaustive=False, mismatches=nviol,
         distribution=dict(hist, groups=groups, **stats),
@@ -1099,8 +1292,41 @@ def run(res, tier, seed, proof):
     return cov, assumptions
 
 
+def tuplify_module(m):
+    """undo what JSON did to the node tuples of a module dict"""
+    kinds = ("leaf", "leaflist", "container", "list", "choice", "case", "any", "uses", "grouping", "rpc", "notification")
+
+    def fx(x):
+        if isinstance(x, list) and x and isinstance(x[0], str) and x[0] in kinds:
+            return tuple(fx(y) for y in x)
+        return [fx(y) for y in x] if isinstance(x, list) else x
+    m = dict(m)
+    m["body"] = [fx(n) for n in m["body"]]
+    m["augments"] = [(p, [fx(n) for n in b]) for p, b in m["augments"]]
+    m["imports"] = [tuple(i) for i in m["imports"]]
+    m["deviations"] = [(p, d) for p, d in m["deviations"]]
+    return m
+
+
 def replay(rep, res):
     c0 = rep["case"]
+    if rep.get("kind") == "c08-baserev":
+        for k in ("b_old", "b_new", "dv"):
+            c0[k] = tuplify_module(c0[k])
+        stats, nviol = check_base_revision_cases(res, [c0], report=10)
+        print(sg.render_module(c0["dv"]), "\nimport pinned to:", c0["pin"])
+        for what, r, _ in res.violations:
+            print("  ", what[:800])
+        return 1 if nviol else 0
+    if rep.get("kind") == "c08-path":
+        c0["mods"] = [tuplify_module(m) for m in c0["mods"]]
+        stats, nviol = check_path_cases(res, [c0], report=10)
+        for m, o in zip(c0["mods"], c0["ops"]):
+            print("---", o, m["name"])
+            print(sg.render_module(m))
+        for what, r, _ in res.violations:
+            print("  ", what[:800])
+        return 1 if nviol else 0
     if rep.get("kind") == "c08-flip":
         print("sequence of options:", rep["seq"], "\n", rep["what"][:1500])
         rep = dict(rep, kind="c08")
